@@ -13,6 +13,8 @@ import Verif.Model.Admin
           as:<id>:<sub>:<provId>:<0|1>:<pid>:<pname>   admin Store(adm, prov)
           ar:<id>  au:<id>:<0|1>               admin Remove / Update
           af:<cursor>:<limit>  ap:<limit>      admin Find / all pages from ""
+          ah:<limit> / av   ph:<limit> / pv    fetch and hold the first page / render it later and
+                                               follow its cursor (a page is a value)
     auth  sa:<id>:<sub>:<provId>:<0|1>:<pid>:<pname>:<faults>   StoreAdmin
           ua:<id>:<0|1>:<faults>  ra:<id>:<faults>             UpdateAdmin / RemoveAdmin
           sp:<id>:<name>:<tok>:<kid|!>:<sum>:<faults>           StoreProvisioner
@@ -149,9 +151,45 @@ def collOp (s : Cache) (tok : String) : Option (Cache × String) :=
     pure (s, pagesS (fun a : Adm => h a.id) (s.A.pages (← int? l) fuel) fuel)
   | _ => none
 
+/-- stage `coll` with pages held across other operations: a page is a *value*; `ah`/`ph` fetch and
+    hold the first page (`Find("", limit)`), `av`/`pv` render the held page and follow its cursor
+    to the end on the collection as it is by then -/
+abbrev CollSt := Cache × Option (List Adm × Str × Int) × Option (List (Str × Prov) × Str × Int)
+
+def restS {α : Type} (f : α → String) (first : List α) (rest : List (List α)) : String :=
+  if rest.length ≥ fuel then "v:loop" else "v:" ++ "|".intercalate ((first :: rest).map fun l => join (l.map f))
+
+def collOpH (st : CollSt) (tok : String) : Option (CollSt × String) :=
+  let (s, ha, hp) := st
+  match tok.splitOn ":" with
+  | ["ah", l] => do
+    let lim ← int? l
+    let r := s.A.find [] lim
+    pure ((s, some (r.1, r.2, lim), hp), "h:" ++ join (r.1.map fun a => h a.id) ++ "/" ++ h r.2)
+  | ["av"] =>
+    match ha with
+    | none => some (st, "v:-")
+    | some (pg, nxt, lim) =>
+      let rest := if nxt = [] then [] else pagesG (fun a : Adm => a.id) id id s.A.sorted (normLimit lim) fuel nxt
+      some ((s, none, hp), restS (fun a : Adm => h a.id) pg rest)
+  | ["ph", l] => do
+    let lim ← int? l
+    let r := s.P.find [] lim
+    pure ((s, ha, some (r.1, r.2, lim)), "h:" ++ join (r.1.map fun e => h e.2.id) ++ "/" ++ h r.2)
+  | ["pv"] =>
+    match hp with
+    | none => some (st, "v:-")
+    | some (pg, nxt, lim) =>
+      let rest := if nxt = [] then [] else
+        pagesG (fun e : Str × Prov => e.1) PColl.pad40 PColl.trim0 s.P.sorted (normLimit lim) fuel nxt
+      some ((s, ha, none), restS (fun e : Str × Prov => h e.2.id) pg rest)
+  | _ => do
+    let (s', o) ← collOp s tok
+    pure ((s', ha, hp), o)
+
 def authOutS : AuthOut → String
   | .ok => "ok" | .badRequest => "bad" | .notFound => "nf" | .storeFailed => "storefail"
-  | .reloadFailed => "reloadfail" | .cacheFailed => "cachefail" | .crash => "crash"
+  | .reloadFailed => "reloadfail" | .cacheFailed => "ise" | .crash => "crash"
   | .lockOut => "lockout" | .evalFailure => "eval" | .configFailure => "config" | .internalFailure => "internal"
 
 def verdictS : SanVerdict → String
@@ -281,7 +319,7 @@ def summary (items : List String) : String :=
 def eval (line : String) : Option String := do
   let toks := (fields line).filter (fun t => !t.startsWith "case=")
   match toks with
-  | "coll" :: ops => do pure (summary (← runOps collOp {} ops []))
+  | "coll" :: ops => do pure (summary (← runOps collOpH ({}, none, none) ops []))
   | "auth" :: ops => do
     -- an optional first field `u:<sub,sub,…>` lists the subjects whose policy verdicts are dumped
     match ops with
